@@ -11,6 +11,10 @@ NOTE = ("claims are over the reals within the bounds stated in the evidence file
         "classes and term transformations of /verif/vf (validated each run against the real code on floats), stub contracts listed in the evidence")
 
 CHECKS = {
+    "C10": ("5 C10", "ranking argument on the loop extracted from the AST of the current source (one iteration from a havocked head, callee "
+                     "arbitrary: a loop-carried integer increases and is bounded on every continuing leaf => bounded for every input, mode and "
+                     "model) + solver-found 2-cycles of the permeate-pressure map replayed on the real code under a counting wrapper; every "
+                     "other `while` / recursion in the package is reported as unanalysed"),
     "C09": ("5 C09", "driving-force function at a symbolic self-consistent permeate composed with the real DiffusionCurve constructor "
                      "(3 modes x 2 feed bases): reported permeances = the ones used; curve from permeances in kg/SI/GPU: exposure in kg units, "
                      "fluxes = P x feed pressure, re-inversion; the permeate-pressure basis mismatch is a characterised known finding"),
